@@ -106,6 +106,14 @@ func ttNode(t *ttree) *Node {
 		return nStr(unhxRaw(body))
 	case 'b':
 		return nBin(unhxRaw(body))
+	case 'p', 'j':
+		n := nBin(unhxRaw(body))
+		n.X = string(a[0])
+		return n
+	case 'd', 'm':
+		n := nInt(atoi64(body))
+		n.X = string(a[0])
+		return n
 	}
 	panic("bad value atom " + a)
 }
